@@ -37,26 +37,32 @@ pub broadcast proof fn lemma_evok_push(ev: Seq<MarkEvent>, e: MarkEvent)
 /// rewriting the `NodeStart` at `pos` (every other event untouched, `alters_start`) keeps `events_ok` if its `parent` link
 /// is either unchanged (`set_kind`, `undo`, `complete` of an empty node: they write `kind` only) or set to a LATER position
 /// that holds a `NodeStart` (`precede`). Links that point TO `pos` stay valid because `pos` is still a `NodeStart`.
+/// (Stated as an implication, without `requires`: at a call site inside a mutated function the failure is then reported at
+/// the labelled postcondition, not at the lemma call.)
+pub open spec fn evok_alter_pre(a: Seq<MarkEvent>, b: Seq<MarkEvent>, pos: int) -> bool {
+    &&& l3::events_ok(a)
+    &&& alters_start(a, b, pos)
+    &&& (ns_parent(b[pos]) == ns_parent(a[pos]) || (pos < ns_parent(b[pos]) < a.len() && a[ns_parent(b[pos]) as int] is NodeStart))
+}
+
 pub proof fn lemma_evok_alter(a: Seq<MarkEvent>, b: Seq<MarkEvent>, pos: int)
-    requires
-        l3::events_ok(a),
-        alters_start(a, b, pos),
-        ns_parent(b[pos]) == ns_parent(a[pos]) || (pos < ns_parent(b[pos]) < a.len() && a[ns_parent(b[pos]) as int] is NodeStart),
     ensures
-        l3::events_ok(b),
+        evok_alter_pre(a, b, pos) ==> l3::events_ok(b),
 {
-    assert forall|i: int| 0 <= i < b.len() implies (#[trigger] b[i] matches MarkEvent::NodeStart { parent, .. } ==> parent == 0 || (i < parent < b.len()
-        && b[parent as int] is NodeStart)) by {
-        let q = ns_parent(b[i]);
-        if b[i] is NodeStart && q != 0 {
-            if i != pos {
-                assert(b[i] == a[i]);
-            }
-            // in both cases a[q] is a NodeStart with i < q < len: either the old link of a[i], or the third hypothesis
-            assert(a[i] is NodeStart);
-            assert(i < q < a.len() && a[q as int] is NodeStart);
-            if q != pos {
-                assert(b[q as int] == a[q as int]);
+    if evok_alter_pre(a, b, pos) {
+        assert forall|i: int| 0 <= i < b.len() implies (#[trigger] b[i] matches MarkEvent::NodeStart { parent, .. } ==> parent == 0 || (i < parent < b.len()
+            && b[parent as int] is NodeStart)) by {
+            let q = ns_parent(b[i]);
+            if b[i] is NodeStart && q != 0 {
+                if i != pos {
+                    assert(b[i] == a[i]);
+                }
+                // in both cases a[q] is a NodeStart with i < q < len: either the old link of a[i], or the third conjunct
+                assert(a[i] is NodeStart);
+                assert(i < q < a.len() && a[q as int] is NodeStart);
+                if q != pos {
+                    assert(b[q as int] == a[q as int]);
+                }
             }
         }
     }
